@@ -8,6 +8,16 @@ BASE = json.load(open('/root/.vp/BASELINE.json'))['cmd'] if os.path.exists('/roo
 # id -> (engine, category, technique, level text, level note, design ref)
 E3NOTE = "Sequentially consistent interleavings at synchronisation granularity (locks, channels, select, WaitGroup, go statements, injected file-system effect points); atomics and un-instrumented dependencies (zapx, bbolt, roaring) execute atomically between scheduling points; timers never fire; exploration is exhaustive up to the stated deviation bound, not beyond. The source rewrite is regenerated from /repo's current tree on every run."
 CHECKS = {
+ "C05": ("E1-opseq", "model_checking",
+         "exhaustive enumeration of histories × physical layouts with a differential oracle (baseline layout vs every alternative), all on the real engine",
+         "Every history up to depth 3 (thorough: plus depth 4 on a reduced alphabet) over 3 ids × (4 document versions + delete) is laid out as one segment per operation (baseline) and in every alternative the engine offers — every partition into consecutive batches, forced file merges, ForceMerge + reopen, two persister workers with in-memory merges, older segment formats — and the complete SearchResult of 13 queries × 5 sorts with fields, locations, highlighting and facets is compared: ids, Total, MaxScore and scores bit-for-bit, sort keys, stored fields, locations, fragments, facet counts.",
+         "Ties under a sort (equal complete sort key) are compared as sets (their order is internal-document-number order, layout dependent by design). One known finding masks score differences of dictionary-expanded multi-term queries when a layout still holds obsoleted documents.",
+         "DESIGN.md §5 C05"),
+ "C13": ("E1-opseq", "model_checking",
+         "explicit-state breadth-first search over operation sequences with canonical-state dedup; every transition and every rollback re-executes the real code",
+         "Breadth-first search over histories of batches (each tagged seq=j in an internal key), ForceMerge and Close+Open steps to depth 3 (quick) / 4 (thorough) for retention settings keep ∈ {1,3,8} × merge plans {default, aggressive, suppressed}. At every state reached: Close, RollbackPoints, and for EVERY point offered: copy, Rollback, Open, comparison of all C01 observations with the model state the point names, a further batch, close and reopen. The newest point must be the last persisted state; the number of points is bounded by keep+2.",
+         "rollbackSamplingInterval = 0 only (time-series retention depends on wall-clock timestamps).",
+         "DESIGN.md §5 C13"),
  "C03": ("E3-sched", "fault_enumeration",
          "stateless schedule exploration (deviation-bounded DFS under a cooperative scheduler) + exhaustive crash-image and torn-file enumeration with real recovery",
          "For every schedule of the batch workload within the deviation bound (safe mode, aggressive merging, unsafe_batch with 2 persister workers and persisted callbacks), the index directory is captured at every file-system / durability effect boundary of persist, merge, purge and removal (every occurrence; one scenario also at every rendezvous and lock point) with all other threads parked = the exact image of a process kill there. Every distinct image and every damage pattern {absent, empty, half, garbage} over zap files that no committed snapshot names is recovered by the real bleve.Open and must equal prefix state S_q with acked ≤ q ≤ submitted, then accept two more batches, close cleanly and reopen.",
